@@ -164,6 +164,15 @@ Theorem C20_anchor_order_refuted : forall nonstr hastype, exists n n',
 Proof. exact fmt_anchor_order_refuted. Qed.
 Print Assumptions C20_anchor_order_refuted.
 
+(* the alias-free fragment: a document without alias nodes is formatted into a document without alias
+   nodes, in which therefore no alias precedes its anchor (the only way the formatter can make the
+   reparse `parse (emit (fmt x))` fail through anchors is excluded); any (S1) sort *)
+Theorem C20_alias_free_anchors_ok : forall nonstr hastype srt kind api, S1 srt -> forall n s p n',
+  alias_free n = true -> fmt_node nonstr hastype srt kind api s p n = Ok n' ->
+  alias_free n' = true /\ anchors_ok n' = true.
+Proof. exact fmt_alias_free. Qed.
+Print Assumptions C20_alias_free_anchors_ok.
+
 (* the head / line / foot comments of all nodes: same multiset before and after *)
 Theorem C20_comments_preserved : forall nonstr hastype srt kind api, S1 srt -> forall n s p n',
   fmt_node nonstr hastype srt kind api s p n = Ok n' -> Permutation (comments n') (comments n).
